@@ -269,6 +269,12 @@ def gen_ops(rng, tier):
                         yield ("tok", loc, tok, 2024, m, d, hour)
             for d in (8, 11, 12, 13, 21, 22, 23, 28, 31):
                 yield ("tok", loc, tok, 2023, 12, d, 3)
+    # 7b. the localized composite formats (LT LTS L LL LLL LLLL), every locale, morning and afternoon: every placeholder substituted
+    #     (oracle only: the reference is C08's independent reading of the locale's date_formats entry)
+    for loc in locs:
+        for tok in ("LT", "LTS", "L", "LL", "LLL", "LLLL"):
+            for (m, d, hour) in ((3, 14, 15), (1, 7, 9), (12, 31, 0), (7, 4, 12)):
+                yield ("ltok", loc, tok, 2021, m, d, hour)
 
 
 def corpus():
@@ -284,7 +290,7 @@ def corpus():
 
 def line(op, backend):
     k = op[0]
-    if k in ("pair", "nowrel"):
+    if k in ("pair", "nowrel", "ltok"):
         return None          # oracle only: the true elapsed time is the reference, not the model's component arithmetic
     if k == "fmt":
         return " ".join(["c18fmt", op[2]] + [str(x) for x in op[3:]])
@@ -480,6 +486,9 @@ def impl(op, backend):
     if k == "tok":
         _, loc, tok, y, m, d, hour = op
         return "ok " + enc_str(p.datetime(y, m, d, hour, 0, 0).format(tok, locale=loc))
+    if k == "ltok":
+        _, loc, tok, y, m, d, hour = op
+        return "ok " + enc_str(p.datetime(y, m, d, hour, 5, 9).format(tok, locale=loc))
     raise ValueError(k)
 
 
@@ -621,6 +630,15 @@ def oracle(op, out, backend):
         return _o_pair(op, dec_str(out.split(" ", 1)[1]))
     if k == "nowrel":
         return _o_nowrel(op, dec_str(out.split(" ", 1)[1]))
+    if k == "ltok":
+        from harness.props import c08
+        _, loc, tok, y, m, d, hour = op
+        try:
+            exp = c08.ref_token(tok, dt.datetime(y, m, d, hour, 5, 9, tzinfo=dt.timezone.utc), loc, ("f", 0))
+        except c08.Skip:
+            return None
+        got = dec_str(out.split(" ", 1)[1])
+        return None if got == exp else f"format({tok!r}, locale={loc!r}) of {y}-{m:02d}-{d:02d} {hour:02d}:05:09 rendered {got!r}, expected {exp!r}"
     if k == "alias":
         return None if out == "ok 1" else f"Locale.load({op[1]!r}) is not the cached Locale.load({op[2]!r})"
     if k == "plural":
